@@ -28,11 +28,12 @@ Proof. exact query_no_factor. Qed.
 Print Assumptions query_no_factor_step.
 
 (* the bare two-ended allocator, EVERY request sequence of a client that frees only its most recent block
-   (or the whole tail): blocks inside [0, lwork), pairwise disjoint (so HEAD and TAIL never overlap),
-   used = top1 + (size - top2) *)
+   (or the whole tail), EVERY alignment ba of the buffer: blocks inside [0, lwork), pairwise disjoint (so HEAD and
+   TAIL never overlap), used = top1 + (size - top2).  (A TAIL request takes bytes + extra, 0 <= extra < 8: the slack
+   lies above the block and is not part of it.) *)
 Theorem ustack_safe :
-  forall (lwork : Z) (rs : list req), 0 < lwork -> Forall req_ok rs ->
-    let u := run_reqs rs (init_ust lwork) in
+  forall (ba lwork : Z) (rs : list req), 0 < lwork -> Forall req_ok rs ->
+    let u := run_reqs ba rs (init_ust lwork) in
     let s := u_stack u in
     Forall (block_in 0 lwork) (u_head u ++ u_tail u) /\
     ForallOrdPairs disjoint (u_head u ++ u_tail u) /\
@@ -41,12 +42,35 @@ Theorem ustack_safe :
 Proof. exact ustack_safe_lemma. Qed.
 Print Assumptions ustack_safe.
 
+(* ... every live TAIL block starts on an 8-byte boundary (address = ba + offset) *)
+Theorem ustack_tail_blocks_aligned :
+  forall (ba lwork : Z) (rs : list req),
+    Forall (fun b => misalign ba (fst b) = 0) (u_tail (run_reqs ba rs (init_ust lwork))).
+Proof. exact ustack_tail_aligned_lemma. Qed.
+Print Assumptions ustack_tail_blocks_aligned.
+
 (* a refused request leaves the state unchanged *)
 Theorem ustack_refused_unchanged :
-  forall (bytes : Z) (e : end_t) (s : stack),
-    fst (user_malloc bytes e s) = None -> snd (user_malloc bytes e s) = s.
+  forall (ba bytes : Z) (e : end_t) (s : stack),
+    fst (user_malloc ba bytes e s) = None -> snd (user_malloc ba bytes e s) = s.
 Proof. exact user_malloc_refused_unchanged. Qed.
 Print Assumptions ustack_refused_unchanged.
+
+(* a granted request: HEAD takes bytes at top1; TAIL takes bytes + extra (0 <= extra < 8, tested against the room left)
+   below top2 and the block starts on an 8-byte boundary *)
+Theorem ustack_granted :
+  forall (ba bytes : Z) (e : end_t) (s : stack) (off : Z) (s' : stack),
+    user_malloc ba bytes e s = (Some off, s') ->
+    stack_full bytes s = false /\
+    match e with
+    | HEAD => off = s_top1 s /\ s' = mkStack (s_size s) (s_used s + bytes) (s_top1 s + bytes) (s_top2 s)
+    | TAIL => let extra := tail_extra ba bytes s in
+              0 <= extra < 8 /\ stack_full (bytes + extra) s = false /\ misalign ba off = 0 /\
+              off = s_top2 s - (bytes + extra) /\
+              s' = mkStack (s_size s) (s_used s + (bytes + extra)) (s_top1 s) (s_top2 s - (bytes + extra))
+    end.
+Proof. exact user_malloc_granted. Qed.
+Print Assumptions ustack_granted.
 
 (* the retry loop halves at most log2(nzumax)+1 times: with that much fuel MemInit never runs out of it
    (annz >= 2; see meminit_hang_refuted for annz <= 1) *)
@@ -97,12 +121,14 @@ Proof. intros fail c fuel a m H. exact (meminit_system_ok_lemma fail c H fuel a 
 Print Assumptions same_capacities_in_system_space_partial.
 
 (* P threads entering p?gstrf_WorkInit on the user stack, EVERY interleaving of their locked sections, start-up phase
-   (nobody has reached WorkFree), no alignment fix-up possible (buffer end 8-aligned, element size multiple of 8):
-   blocks of different threads never overlap, everything stays between the HEAD part and the end of the buffer
-   (see workinit_race_overlap_refuted / workfree_overlap_refuted for what happens without these hypotheses) *)
+   (nobody has reached WorkFree), EVERY alignment of the buffer and every element size (the two alignment hypotheses
+   "(ba + L) mod 8 = 0" and "work_dsize mod 8 = 0" of earlier versions are gone: since fix 'tail blocks are aligned by
+   the allocator' no fix-up outside the allocator's critical section can occur, see workinit_fixup_unreachable):
+   blocks of different threads never overlap, everything stays between the HEAD part and the end of the buffer.
+   (The name keeps its historical suffix; the statement is no longer partial in the alignment.) *)
 Theorem workinit_any_interleaving_partial :
   forall (c : cfg) (n w ba L T1 : Z),
-    (ba + L) mod 8 = 0 -> work_dsize c n w mod 8 = 0 -> 0 <= work_isize n w -> 0 <= work_dsize c n w -> 0 <= T1 <= L ->
+    0 <= work_isize n w -> 0 <= work_dsize c n w -> 0 <= T1 <= L ->
     forall (P : nat) (sched : list nat),
       let '(ts, s) := run_init c n w ba sched (repeat TStart P) (mkStack L T1 T1 L) in
       (forall i t b, nth_error ts i = Some t -> In b (thread_blocks c n w t) -> block_in T1 L b) /\
@@ -112,6 +138,37 @@ Theorem workinit_any_interleaving_partial :
       s_used s = s_top1 s + (s_size s - s_top2 s) /\ s_top1 s = T1 /\ T1 <= s_top2 s <= L.
 Proof. exact workinit_threads_lemma. Qed.
 Print Assumptions workinit_any_interleaving_partial.
+
+(* ... over the WHOLE run and for EVERY interleaving no thread is ever in the state between user_malloc(dwork) and the
+   second locked section of the alignment fix-up of p?gstrf_WorkInit (that C code is still there, and dead), and every
+   block a thread holds starts on an 8-byte boundary *)
+Theorem workinit_fixup_unreachable :
+  forall (c : cfg) (n w ba L T1 : Z),
+    0 <= work_isize n w -> 0 <= work_dsize c n w -> 0 <= T1 <= L ->
+    forall (P : nat) (sched : list nat),
+      let '(ts, s) := run_sched c n w ba sched (repeat TStart P) (mkStack L T1 T1 L) in
+      (forall i iw dw e, nth_error ts i <> Some (TGotD iw dw e)) /\
+      (forall i t b, nth_error ts i = Some t -> In b (thread_blocks c n w t) -> misalign ba (fst b) = 0).
+Proof. exact workinit_no_fixup_lemma. Qed.
+Print Assumptions workinit_fixup_unreachable.
+
+(* the sequential p?gstrf_WorkInit (the model that is compared with the C code) on a user stack in ANY state satisfying
+   the stack invariant: what it hands out lies between the new and the old top2 (above top1), iwork and dwork are
+   disjoint, dwork is on an 8-byte boundary, a failure returns isize + n or isize + dsize + n, no fix-up is logged *)
+Theorem workinit_sequential_safe :
+  forall (fail : nat -> bool) (c : cfg) (n w : Z) (m : mem) (L : Z),
+    m_space m = USER -> stack_inv L (m_stack m) -> 0 <= work_isize n w -> 0 <= work_dsize c n w ->
+    exists r iw dw m',
+      work_init fail c n w m = Ok (r, iw, dw) m' /\
+      stack_inv L (m_stack m') /\ s_top1 (m_stack m') = s_top1 (m_stack m) /\ s_top2 (m_stack m') <= s_top2 (m_stack m) /\
+      (forall i, iw = POff i -> block_in (s_top2 (m_stack m')) (s_top2 (m_stack m)) (i, work_isize n w)) /\
+      (forall d, dw = POff d ->
+         r = 0 /\ misalign (m_ba m) d = 0 /\ block_in (s_top2 (m_stack m')) (s_top2 (m_stack m)) (d, work_dsize c n w) /\
+         exists i, iw = POff i /\ disjoint (i, work_isize n w) (d, work_dsize c n w)) /\
+      (dw = PNull -> r = work_isize n w + n \/ r = work_isize n w + work_dsize c n w + n) /\
+      (forall o b e, In (EvShift o b e) (m_log m') -> In (EvShift o b e) (m_log m)).
+Proof. exact work_init_user_safe_lemma. Qed.
+Print Assumptions workinit_sequential_safe.
 
 (* the thread-level transition system (used by the three theorems about interleavings) and the sequential model of
    p?gstrf_WorkInit that is compared with the C code on every run agree on a thread that is not interleaved *)
@@ -168,33 +225,60 @@ Theorem meminit_hang_refuted :
 Proof. exact meminit_hang_lemma. Qed.
 Print Assumptions meminit_hang_refuted.
 
-(* the alignment fix-up of WorkInit moves dwork below top1: TAIL block overlaps the last HEAD block *)
-Theorem workinit_alignment_overlap_refuted :
-  exists a g m1 iw dw m2,
+(* [repaired: fix 'tail blocks are aligned by the allocator'; was workinit_alignment_overlap_refuted: the alignment
+   fix-up of WorkInit moved dwork below top1 and the TAIL block overlapped the last HEAD block]
+   the very arguments of the old witness (lwork = 477): iwork is granted with its slack, dwork is refused, WorkInit
+   returns isize + dsize + n, everything handed out is inside the buffer and disjoint from the 13 arrays, top1 <= top2;
+   with lwork = 485 (buffer end still misaligned) both arrays are granted, dwork aligned, no fix-up event.
+   Instances of workinit_sequential_safe. *)
+Theorem workinit_alignment_in_range :
+  (exists a g m1 iw m2,
+    a = mkArgs 3 5 1 1 false false 7 0 0 477 0 None /\
+    mem_init (fun _ => false) small_cfg 64 a init_mem = Ok (MIok g) m1 /\
+    work_init (fun _ => false) small_cfg (a_n a) (a_w a) m1
+      = Ok (work_isize (a_n a) (a_w a) + work_dsize small_cfg (a_n a) (a_w a) + a_n a, POff iw, PNull) m2 /\
+    exists bl, glu_blocks small_cfg (a_n a) g = Some bl /\ blocks_okb (a_lwork a) bl = true /\
+    blocks_okb (a_lwork a) (bl ++ [(iw, work_isize (a_n a) (a_w a))]) = true /\
+    s_top1 (m_stack m2) <= s_top2 (m_stack m2) /\ s_top1 (m_stack m2) = s_top1 (m_stack m1)) /\
+  (exists a g m1 iw dw m2,
+    a = mkArgs 3 5 1 1 false false 7 0 0 485 0 None /\
     mem_init (fun _ => false) small_cfg 64 a init_mem = Ok (MIok g) m1 /\
     work_init (fun _ => false) small_cfg (a_n a) (a_w a) m1 = Ok (0, POff iw, POff dw) m2 /\
+    misalign (a_ba a) dw = 0 /\
     exists bl, glu_blocks small_cfg (a_n a) g = Some bl /\ blocks_okb (a_lwork a) bl = true /\
-    blocks_okb (a_lwork a) (bl ++ [(iw, work_isize (a_n a) (a_w a)); (dw, work_dsize small_cfg (a_n a) (a_w a))]) = false /\
-    s_top2 (m_stack m2) < s_top1 (m_stack m2).
-Proof. exact workinit_alignment_overlap_lemma. Qed.
-Print Assumptions workinit_alignment_overlap_refuted.
+    blocks_okb (a_lwork a) (bl ++ [(iw, work_isize (a_n a) (a_w a)); (dw, work_dsize small_cfg (a_n a) (a_w a))]) = true /\
+    s_top1 (m_stack m2) <= s_top2 (m_stack m2) /\ s_top1 (m_stack m2) = s_top1 (m_stack m1) /\
+    forall o b e, ~ In (EvShift o b e) (m_log m2)).
+Proof. exact workinit_alignment_in_range_lemma. Qed.
+Print Assumptions workinit_alignment_in_range.
 
-(* two threads: the unlocked gap between user_malloc(dwork) and its fix-up lets another thread's iwork in *)
-Theorem workinit_race_overlap_refuted :
+(* [repaired; was workinit_race_overlap_refuted: the unlocked gap between user_malloc(dwork) and its fix-up let another
+   thread's iwork in]  the very schedule of the old witness (two threads, buffer end = 4 mod 8): blocks pairwise
+   disjoint and in range, both over the whole run (thread 0's fourth step is now its WorkFree) and in the start-up
+   phase (both threads ready, all four blocks on 8-byte boundaries).  Instances of workfree_any_interleaving /
+   workinit_any_interleaving_partial. *)
+Theorem workinit_race_no_overlap :
   exists lwork sched,
-    let '(ts, s) := run_sched small_cfg 3 1 0 sched [TStart; TStart] (mkStack lwork 264 264 lwork) in
-    ts = [TReady 9884 9808; TReady 9692 9616] /\ pairwise_disjointb (live_blocks small_cfg 3 1 ts) = false.
-Proof. exact workinit_race_overlap_lemma. Qed.
-Print Assumptions workinit_race_overlap_refuted.
+    (let '(ts, s) := run_sched small_cfg 3 1 0 sched [TStart; TStart] (mkStack lwork 264 264 lwork) in
+     ts = [TDone; TReady 9688 9616] /\ blocks_okb lwork (live_blocks small_cfg 3 1 ts) = true /\
+     s_top1 s = 264 /\ s_top1 s <= s_top2 s) /\
+    (let '(ts, s) := run_init small_cfg 3 1 0 sched [TStart; TStart] (mkStack lwork 264 264 lwork) in
+     ts = [TReady 9880 9808; TReady 9688 9616] /\ blocks_okb lwork (live_blocks small_cfg 3 1 ts) = true /\
+     forallb (in_rangeb 264 lwork) (live_blocks small_cfg 3 1 ts) = true /\
+     forallb (fun b => misalign 0 (fst b) =? 0) (live_blocks small_cfg 3 1 ts) = true /\
+     s = mkStack lwork 652 264 9616).
+Proof. exact workinit_race_no_overlap_lemma. Qed.
+Print Assumptions workinit_race_no_overlap.
 
 (* P threads on the user stack, EVERY interleaving of their locked sections over the WHOLE run -- WorkInit, working,
-   WorkFree (which since fix 'WorkFree keeps the tail' releases nothing: the tail is reclaimed by the next MemInit): under the
-   same alignment hypotheses as above, blocks of different threads never overlap and stay inside the tail region.  Before the
-   fix the first thread to finish reset the whole tail and a thread starting late was handed live memory (findings F17,
-   C14-workfree: the refuted statement workfree_overlap_refuted of earlier versions). *)
+   WorkFree (which since fix 'WorkFree keeps the tail' releases nothing: the tail is reclaimed by the next MemInit): for
+   EVERY alignment of the buffer and every element size (no alignment hypothesis any more, as above), blocks of different
+   threads never overlap and stay inside the tail region.  Before the first fix the first thread to finish reset the whole
+   tail and a thread starting late was handed live memory (findings F17, C14-workfree: the refuted statement
+   workfree_overlap_refuted of earlier versions); before the second one a misaligned dwork was shifted outside the lock. *)
 Theorem workfree_any_interleaving :
   forall (c : cfg) (n w ba L T1 : Z),
-    (ba + L) mod 8 = 0 -> work_dsize c n w mod 8 = 0 -> 0 <= work_isize n w -> 0 <= work_dsize c n w -> 0 <= T1 <= L ->
+    0 <= work_isize n w -> 0 <= work_dsize c n w -> 0 <= T1 <= L ->
     forall (P : nat) (sched : list nat),
       let '(ts, s) := run_sched c n w ba sched (repeat TStart P) (mkStack L T1 T1 L) in
       (forall i t b, nth_error ts i = Some t -> In b (thread_blocks c n w t) -> block_in T1 L b) /\
